@@ -219,3 +219,541 @@ Proof.
       rewrite H2. repeat split; try assumption; try lia.
       rewrite H3, Z.sub_diag. change (10 ^ 0) with 1. lia.
 Qed.
+
+(* ------------------------------------------------------------------ one segment of ParseDuration *)
+
+Lemma strip_char_hit k t : strip_char k (k :: t) = Some t.
+Proof. unfold strip_char. rewrite Z.eqb_refl. reflexivity. Qed.
+
+Lemma strip_char_miss k c t : c <> k -> strip_char k (c :: t) = None.
+Proof. intros H. unfold strip_char. replace (c =? k) with false by lia. reflexivity. Qed.
+
+Definition unit_ok (U : list Z) : Prop := U <> [] /\ forallb (fun c => negb (num_char c)) U = true.
+Definition rest_ok (rest : list Z) : Prop := match rest with [] => True | c :: _ => num_char c = true end.
+
+Lemma len_dec_pos v : (1 <= length (dec v))%nat.
+Proof. pose proof (dec_nonempty v). destruct (dec v); [congruence|simpl; lia]. Qed.
+
+Lemma neqb_len_app (a b : list Z) : (1 <= length a)%nat -> Nat.eqb (length (a ++ b)) (length b) = false.
+Proof. intros H. apply Nat.eqb_neq. rewrite app_length. lia. Qed.
+
+Lemma unit_head U : unit_ok U -> exists u0 U', U = u0 :: U' /\ num_char u0 = false.
+Proof.
+  intros [Hne Hall]. destruct U as [|u0 U']; [congruence|]. exists u0, U'. split; [reflexivity|].
+  simpl in Hall. apply andb_true_iff in Hall as [H _]. apply negb_true_iff in H. exact H.
+Qed.
+
+Lemma num_char_false c : num_char c = false -> c <> 46 /\ is_digit c = false.
+Proof. unfold num_char. intros H. apply orb_false_iff in H as [H1 H2]. split; [lia|exact H2]. Qed.
+
+Lemma span_unit U rest : unit_ok U -> rest_ok rest ->
+  span (fun c => negb (num_char c)) (U ++ rest) = (U, rest).
+Proof.
+  intros [_ Hall] Hr. apply span_all; [exact Hall|]. destruct rest as [|c r]; [exact I|].
+  simpl in Hr. rewrite Hr. reflexivity.
+Qed.
+
+Lemma wrapu64_small z : 0 <= z < two64 -> wrapu64 z = z.
+Proof. intros. unfold wrapu64. apply Z.mod_small. lia. Qed.
+
+(* a segment without fraction *)
+Lemma seg_plain fuel d v U unit rest :
+  0 <= d -> 0 <= v -> dec_range v -> unit_ok U -> unit_of U = Some unit -> 0 < unit -> rest_ok rest ->
+  d + v * unit <= two63 ->
+  pd_loop (S fuel) d (dec v ++ U ++ rest) = pd_loop fuel (d + v * unit) rest.
+Proof.
+  intros Hd Hv Hr HU Hunit Hup Hrest Hsum.
+  destruct (unit_head U HU) as (u0 & U' & EU & Hu0). destruct (num_char_false u0 Hu0) as [Hu46 Hudig].
+  destruct (dec_head v Hr) as (c0 & r0 & Edec & Hc0 & _).
+  assert (Hnc : num_char c0 = true).
+  { unfold num_char. replace (is_digit c0) with true by (symmetry; apply is_digit_spec; exact Hc0). apply orb_true_r. }
+  assert (Hvu : v * unit <= two63) by lia.
+  assert (Hvle : v <= two63 / unit) by (apply Z.div_le_lower_bound; lia).
+  assert (Hli : leading_int 0 (dec v ++ U ++ rest) = Some (v, U ++ rest)).
+  { rewrite leading_int_digits; [rewrite (dec_val v Hr); reflexivity|lia|apply dec_digits, Hr| |rewrite (dec_val v Hr)].
+    - rewrite EU. simpl. exact Hudig.
+    - assert (0 < unit) by lia. nia. }
+  remember (dec v ++ U ++ rest) as s eqn:Es.
+  assert (Es' : s = c0 :: (r0 ++ U ++ rest)) by (rewrite Es, Edec; reflexivity).
+  rewrite Es' at 1. cbn [pd_loop]. rewrite Hnc. cbn [negb]. rewrite <- Es'. rewrite Hli.
+  clear Es'. subst s. rewrite (neqb_len_app (dec v) (U ++ rest) (len_dec_pos v)).
+  rewrite EU at 1. cbn [app]. rewrite (strip_char_miss 46 u0 _ Hu46).
+  cbn [negb andb].
+  rewrite (span_unit U rest HU Hrest). rewrite EU at 1. rewrite Hunit.
+  replace (v >? two63 / unit) with false by lia.
+  change (0 >? 0) with false. cbn [andb]. cbn iota.
+  unfold two63, two64 in *. rewrite wrapu64_small by (unfold two64; lia).
+  replace (d + v * unit >? 9223372036854775808) with false by lia. reflexivity.
+Qed.
+
+(* a segment with the fraction r of p digits, unit 10^p *)
+Lemma seg_frac fuel d v (p : nat) r U rest :
+  0 <= d -> 0 <= v -> dec_range v -> (p <= 9)%nat -> 0 <= r < 10 ^ Z.of_nat p ->
+  unit_ok U -> unit_of U = Some (10 ^ Z.of_nat p) -> rest_ok rest ->
+  d + v * 10 ^ Z.of_nat p + r <= two63 ->
+  pd_loop (S fuel) d (dec v ++ frac_text p r ++ U ++ rest) = pd_loop fuel (d + v * 10 ^ Z.of_nat p + r) rest.
+Proof.
+  intros Hd Hv Hr Hp Hrr HU Hunit Hrest Hsum.
+  assert (Hup : 0 < 10 ^ Z.of_nat p) by (apply pow10_pos; lia).
+  unfold frac_text. destruct (r =? 0) eqn:Er0.
+  { apply Z.eqb_eq in Er0. subst r. cbn [app]. rewrite Z.add_0_r.
+    apply seg_plain; try assumption. lia. }
+  apply Z.eqb_neq in Er0.
+  destruct (fracd_spec p r ltac:(lia)) as (HDd & HDl & HDv). cbv zeta in HDd, HDl, HDv.
+  set (D := fracd p r) in *.
+  set (k := Z.of_nat (length D)) in *.
+  assert (Hk : 1 <= k <= Z.of_nat p) by (unfold k; lia).
+  set (f := digits_val 0 D) in *.
+  assert (Hq : 0 < 10 ^ (Z.of_nat p - k)) by (apply pow10_pos; lia).
+  assert (Hf : 0 < f) by nia.
+  assert (Hp9 : 10 ^ Z.of_nat p <= 10 ^ 9) by (apply pow10_le; lia).
+  destruct (unit_head U HU) as (u0 & U' & EU & Hu0). destruct (num_char_false u0 Hu0) as [Hu46 Hudig].
+  destruct (dec_head v Hr) as (c0 & r0 & Edec & Hc0 & _).
+  assert (Hnc : num_char c0 = true).
+  { unfold num_char. replace (is_digit c0) with true by (symmetry; apply is_digit_spec; exact Hc0). apply orb_true_r. }
+  set (unit := 10 ^ Z.of_nat p) in *.
+  assert (Hvu : v * unit <= two63) by lia.
+  assert (Hvle : v <= two63 / unit) by (apply Z.div_le_lower_bound; lia).
+  assert (Hli : leading_int 0 (dec v ++ (46 :: D) ++ U ++ rest) = Some (v, (46 :: D) ++ U ++ rest)).
+  { rewrite leading_int_digits; [rewrite (dec_val v Hr); reflexivity|lia|apply dec_digits, Hr| |rewrite (dec_val v Hr)].
+    - simpl. reflexivity.
+    - nia. }
+  assert (Hlf : leading_fraction 0 (1, 0) false (D ++ U ++ rest) = (f, (10 ^ k, 0), U ++ rest)).
+  { assert (HsnD : starts_nondigit (U ++ rest)) by (rewrite EU; simpl; exact Hudig).
+    assert (HfD : digits_val 0 D <= 922337203685477580).
+    { fold f. assert (10 ^ 9 < 922337203685477580) by reflexivity. assert (f <= r) by nia. lia. }
+    change (1, 0) with (10 ^ 0, 0). rewrite leading_fraction_digits by (try assumption; lia). reflexivity. }
+  assert (Hfrac : frac_ns f unit (10 ^ k, 0) = r).
+  { unfold unit. rewrite frac_ns_exact; try lia. }
+  remember (dec v ++ (46 :: D) ++ U ++ rest) as s eqn:Es.
+  assert (Es' : s = c0 :: (r0 ++ (46 :: D) ++ U ++ rest)) by (rewrite Es, Edec; reflexivity).
+  rewrite Es' at 1. cbn [pd_loop]. rewrite Hnc. cbn [negb]. rewrite <- Es'. rewrite Hli.
+  clear Es'. subst s. rewrite (neqb_len_app (dec v) _ (len_dec_pos v)).
+  cbn [app]. rewrite strip_char_hit. rewrite Hlf.
+  rewrite (neqb_len_app D (U ++ rest)) by lia.
+  cbn [negb andb]. rewrite (span_unit U rest HU Hrest). rewrite EU at 1. rewrite Hunit. fold unit.
+  replace (v >? two63 / unit) with false by lia.
+  replace (f >? 0) with true by lia. rewrite Hfrac.
+  unfold two63, two64 in *. rewrite wrapu64_small by (unfold two64; lia).
+  replace (v * unit + r >? 9223372036854775808) with false by lia. cbn [andb]. cbn iota.
+  rewrite wrapu64_small by (unfold two64; lia).
+  replace (d + (v * unit + r) >? 9223372036854775808) with false by lia.
+  f_equal. lia.
+Qed.
+
+(* ------------------------------------------------------------------ the text of Duration.String *)
+
+Definition txt_ns := [110; 115].
+Definition txt_us := [194; 181; 115].
+Definition txt_ms := [109; 115].
+Definition txt_s := [115].
+Definition txt_m := [109].
+Definition txt_h := [104].
+
+Lemma fmt_ns u : 0 < u < 1000 -> dur_format_u u = dec u ++ txt_ns.
+Proof.
+  intros H. unfold dur_format_u, t_second. replace (u <? 1000000000) with true by lia.
+  replace (u =? 0) with false by lia. replace (u <? 1000) with true by lia. reflexivity.
+Qed.
+
+Lemma fmt_us u : 1000 <= u < 1000000 ->
+  dur_format_u u = dec (u / 1000) ++ frac_text 3 (u mod 1000) ++ txt_us.
+Proof.
+  intros H. unfold dur_format_u, t_second. replace (u <? 1000000000) with true by lia.
+  replace (u =? 0) with false by lia. replace (u <? 1000) with false by lia.
+  replace (u <? 1000000) with true by lia. rewrite fmt_frac_spec by lia.
+  change (10 ^ Z.of_nat 3) with 1000. reflexivity.
+Qed.
+
+Lemma fmt_ms u : 1000000 <= u < 1000000000 ->
+  dur_format_u u = dec (u / 1000000) ++ frac_text 6 (u mod 1000000) ++ txt_ms.
+Proof.
+  intros H. unfold dur_format_u, t_second. replace (u <? 1000000000) with true by lia.
+  replace (u =? 0) with false by lia. replace (u <? 1000) with false by lia.
+  replace (u <? 1000000) with false by lia. rewrite fmt_frac_spec by lia.
+  change (10 ^ Z.of_nat 6) with 1000000. reflexivity.
+Qed.
+
+Definition sec_text (u : Z) : list Z :=
+  dec (u / 1000000000 mod 60) ++ frac_text 9 (u mod 1000000000) ++ txt_s.
+
+Lemma fmt_sec u : 1000000000 <= u ->
+  dur_format_u u =
+  let u2 := u / 1000000000 / 60 in
+  let u3 := u2 / 60 in
+  if u2 >? 0 then
+    if u3 >? 0 then dec u3 ++ txt_h ++ dec (u2 mod 60) ++ txt_m ++ sec_text u
+    else dec (u2 mod 60) ++ txt_m ++ sec_text u
+  else sec_text u.
+Proof.
+  intros H. unfold dur_format_u, t_second. replace (u <? 1000000000) with false by lia.
+  rewrite fmt_frac_spec by lia. change (10 ^ Z.of_nat 9) with 1000000000.
+  cbv zeta. unfold fmt_int, sec_text, txt_s, txt_m, txt_h.
+  destruct (u / 1000000000 / 60 >? 0); [|reflexivity].
+  destruct (u / 1000000000 / 60 / 60 >? 0); cbn [app]; reflexivity.
+Qed.
+
+(* ------------------------------------------------------------------ ParseDuration (String u) = u *)
+
+Lemma unit_ok_ns : unit_ok txt_ns. Proof. split; [discriminate|reflexivity]. Qed.
+Lemma unit_ok_us : unit_ok txt_us. Proof. split; [discriminate|reflexivity]. Qed.
+Lemma unit_ok_ms : unit_ok txt_ms. Proof. split; [discriminate|reflexivity]. Qed.
+Lemma unit_ok_s : unit_ok txt_s. Proof. split; [discriminate|reflexivity]. Qed.
+Lemma unit_ok_m : unit_ok txt_m. Proof. split; [discriminate|reflexivity]. Qed.
+Lemma unit_ok_h : unit_ok txt_h. Proof. split; [discriminate|reflexivity]. Qed.
+
+Lemma pd_loop_nil fuel d : pd_loop fuel d [] = Some d.
+Proof. destruct fuel; reflexivity. Qed.
+
+Lemma rest_ok_dec v t : dec_range v -> rest_ok (dec v ++ t).
+Proof.
+  intros Hr. destruct (dec_head v Hr) as (c & r & E & Hc & _). rewrite E. simpl.
+  unfold num_char. replace (is_digit c) with true by (symmetry; apply is_digit_spec; exact Hc). apply orb_true_r.
+Qed.
+
+Lemma dr n : 0 <= n <= two64 -> dec_range n.
+Proof. apply dec_range_u64. Qed.
+
+(* number of segments of the text *)
+Definition segs (u : Z) : nat :=
+  if u <? 60000000000 then 1 else if u <? 3600000000000 then 2 else 3.
+
+Ltac pw := change (10 ^ Z.of_nat 3) with 1000 in *; change (10 ^ Z.of_nat 6) with 1000000 in *;
+           change (10 ^ Z.of_nat 9) with 1000000000 in *.
+Ltac side :=
+  first [ assumption | exact I | apply unit_ok_ns | apply unit_ok_us | apply unit_ok_ms | apply unit_ok_s
+        | apply unit_ok_m | apply unit_ok_h | (apply dr; unfold two64; lia)
+        | (apply rest_ok_dec, dr; unfold two64; lia)
+        | (unfold sec_text; apply rest_ok_dec, dr; unfold two64; lia)
+        | reflexivity
+        | (pw; unfold two63, two64, t_hour, t_minute in *; lia) ].
+
+Lemma pd_format fuel u : 0 < u < two63 -> (segs u <= fuel)%nat -> pd_loop fuel 0 (dur_format_u u) = Some u.
+Proof.
+  intros Hu Hf. unfold two63 in Hu.
+  assert (Hseg1 : exists f1, fuel = S f1).
+  { unfold segs in Hf. destruct fuel; [|eauto]. destruct (u <? 60000000000); [lia|]. destruct (u <? 3600000000000); lia. }
+  destruct Hseg1 as [f1 ->].
+  destruct (Z.ltb_spec u 1000) as [H1|H1].
+  { rewrite fmt_ns by lia. rewrite <- (app_nil_r txt_ns).
+    rewrite (seg_plain f1 0 u txt_ns 1 []) by side.
+    rewrite pd_loop_nil. f_equal. lia. }
+  destruct (Z.ltb_spec u 1000000) as [H2|H2].
+  { rewrite fmt_us by lia. pose proof (Z.div_mod u 1000 ltac:(lia)) as Hdm.
+    pose proof (Z.mod_pos_bound u 1000 ltac:(lia)) as Hmb.
+    assert (0 <= u / 1000) by (apply Z.div_pos; lia).
+    rewrite <- (app_nil_r txt_us).
+    rewrite (seg_frac f1 0 (u / 1000) 3 (u mod 1000) txt_us []) by side.
+    rewrite pd_loop_nil. pw. f_equal. lia. }
+  destruct (Z.ltb_spec u 1000000000) as [H3|H3].
+  { rewrite fmt_ms by lia. pose proof (Z.div_mod u 1000000 ltac:(lia)) as Hdm.
+    pose proof (Z.mod_pos_bound u 1000000 ltac:(lia)) as Hmb.
+    assert (0 <= u / 1000000) by (apply Z.div_pos; lia).
+    rewrite <- (app_nil_r txt_ms).
+    rewrite (seg_frac f1 0 (u / 1000000) 6 (u mod 1000000) txt_ms []) by side.
+    rewrite pd_loop_nil. pw. f_equal. lia. }
+  (* one second and more *)
+  rewrite fmt_sec by lia. cbv zeta.
+  set (u1 := u / 1000000000). set (r := u mod 1000000000).
+  set (u2 := u1 / 60). set (sec := u1 mod 60). set (u3 := u2 / 60). set (mn := u2 mod 60).
+  pose proof (Z.div_mod u 1000000000 ltac:(lia)) as Hd1. fold u1 r in Hd1.
+  pose proof (Z.mod_pos_bound u 1000000000 ltac:(lia)) as Hb1. fold r in Hb1.
+  pose proof (Z.div_mod u1 60 ltac:(lia)) as Hd2. fold u2 sec in Hd2.
+  pose proof (Z.mod_pos_bound u1 60 ltac:(lia)) as Hb2. fold sec in Hb2.
+  pose proof (Z.div_mod u2 60 ltac:(lia)) as Hd3. fold u3 mn in Hd3.
+  pose proof (Z.mod_pos_bound u2 60 ltac:(lia)) as Hb3. fold mn in Hb3.
+  assert (Hu1 : 0 <= u1) by (apply Z.div_pos; lia).
+  assert (Hu2 : 0 <= u2) by (apply Z.div_pos; lia).
+  assert (Hu3 : 0 <= u3) by (apply Z.div_pos; lia).
+  assert (Hsecseg : forall f d, 0 <= d -> d + sec * 1000000000 + r <= 9223372036854775808 ->
+            pd_loop (S f) d (sec_text u) = Some (d + sec * 1000000000 + r)).
+  { intros f d Hd Hs. unfold sec_text. fold u1 sec r. rewrite <- (app_nil_r txt_s).
+    rewrite (seg_frac f d sec 9 r txt_s []) by side.
+    rewrite pd_loop_nil. reflexivity. }
+  assert (Hrs : rest_ok (sec_text u)).
+  { unfold sec_text. fold u1 sec. apply rest_ok_dec, dr. unfold two64. lia. }
+  destruct (u2 >? 0) eqn:E2.
+  2:{ rewrite Hsecseg by lia. f_equal. lia. }
+  assert (Hge2 : 60000000000 <= u) by lia.
+  destruct (u3 >? 0) eqn:E3.
+  - assert (Hge3 : 3600000000000 <= u) by lia.
+    assert (Hf3 : exists f3, f1 = S (S f3)).
+    { unfold segs in Hf. replace (u <? 60000000000) with false in Hf by lia.
+      replace (u <? 3600000000000) with false in Hf by lia. destruct f1 as [|[|f3]]; try lia. eauto. }
+    destruct Hf3 as [f3 ->].
+    rewrite (seg_plain (S (S f3)) 0 u3 txt_h t_hour) by side.
+    rewrite (seg_plain (S f3) (0 + u3 * t_hour) mn txt_m t_minute) by side.
+    rewrite Hsecseg by (unfold t_hour, t_minute; lia). f_equal. unfold t_hour, t_minute. lia.
+  - assert (Hf2 : exists f2, f1 = S f2).
+    { unfold segs in Hf. replace (u <? 60000000000) with false in Hf by lia.
+      destruct (u <? 3600000000000); destruct f1; try lia; eauto. }
+    destruct Hf2 as [f2 ->].
+    rewrite (seg_plain (S f2) 0 mn txt_m t_minute) by side.
+    rewrite Hsecseg by (unfold t_minute; lia). f_equal. unfold t_minute. lia.
+Qed.
+
+(* ------------------------------------------------------------------ shape of the text *)
+
+(* what follows the first number: '.', or the first byte of a unit; never a digit, never 'd' *)
+Definition tail_ok (t : list Z) : Prop :=
+  exists c r, t = c :: r /\ is_digit c = false /\ c <> 100.
+
+Lemma tail_ok_frac p r U t : (exists c U', U = c :: U' /\ is_digit c = false /\ c <> 100) ->
+  tail_ok (frac_text p r ++ U ++ t).
+Proof.
+  intros (c & U' & -> & Hc & Hc100). unfold frac_text. destruct (r =? 0).
+  - exists c, (U' ++ t). repeat split; assumption.
+  - exists 46, (fracd p r ++ (c :: U') ++ t). repeat split; try reflexivity; lia.
+Qed.
+
+Lemma format_shape u : 0 < u < two63 ->
+  exists x t, dur_format_u u = dec x ++ t /\ dec_range x /\ tail_ok t.
+Proof.
+  intros Hu. unfold two63 in Hu.
+  destruct (Z.ltb_spec u 1000) as [H1|H1].
+  { rewrite fmt_ns by lia. exists u, txt_ns. split; [reflexivity|]. split; [apply dr; unfold two64; lia|].
+    exists 110, [115]. repeat split; try reflexivity; lia. }
+  destruct (Z.ltb_spec u 1000000) as [H2|H2].
+  { rewrite fmt_us by lia. assert (0 <= u / 1000 <= u) by (split; [apply Z.div_pos|apply Z.div_le_upper_bound]; lia).
+    exists (u / 1000), (frac_text 3 (u mod 1000) ++ txt_us). split; [reflexivity|]. split; [apply dr; unfold two64; lia|].
+    rewrite <- (app_nil_r txt_us). apply tail_ok_frac. exists 194, [181; 115]. repeat split; try reflexivity; lia. }
+  destruct (Z.ltb_spec u 1000000000) as [H3|H3].
+  { rewrite fmt_ms by lia. assert (0 <= u / 1000000 <= u) by (split; [apply Z.div_pos|apply Z.div_le_upper_bound]; lia).
+    exists (u / 1000000), (frac_text 6 (u mod 1000000) ++ txt_ms). split; [reflexivity|]. split; [apply dr; unfold two64; lia|].
+    rewrite <- (app_nil_r txt_ms). apply tail_ok_frac. exists 109, [115]. repeat split; try reflexivity; lia. }
+  rewrite fmt_sec by lia. cbv zeta.
+  set (u1 := u / 1000000000). set (u2 := u1 / 60). set (u3 := u2 / 60).
+  assert (Hu1 : 0 <= u1 <= u) by (split; [apply Z.div_pos|apply Z.div_le_upper_bound]; lia).
+  assert (Hu2 : 0 <= u2 <= u) by (split; [apply Z.div_pos|apply Z.div_le_upper_bound]; lia).
+  assert (Hu3 : 0 <= u3 <= u) by (split; [apply Z.div_pos|apply Z.div_le_upper_bound]; lia).
+  pose proof (Z.mod_pos_bound u1 60 ltac:(lia)) as Hb2. pose proof (Z.mod_pos_bound u2 60 ltac:(lia)) as Hb3.
+  assert (Hsec : exists x t, sec_text u = dec x ++ t /\ dec_range x /\ tail_ok t).
+  { unfold sec_text. fold u1. exists (u1 mod 60), (frac_text 9 (u mod 1000000000) ++ txt_s).
+    split; [reflexivity|]. split; [apply dr; unfold two64; lia|].
+    rewrite <- (app_nil_r txt_s). apply tail_ok_frac. exists 115, []. repeat split; try reflexivity; lia. }
+  destruct (u2 >? 0); [|exact Hsec].
+  destruct (u3 >? 0).
+  - exists u3, (txt_h ++ dec (u2 mod 60) ++ txt_m ++ sec_text u). split; [reflexivity|]. split; [apply dr; unfold two64; lia|].
+    exists 104, (dec (u2 mod 60) ++ txt_m ++ sec_text u). repeat split; try reflexivity; lia.
+  - exists (u2 mod 60), (txt_m ++ sec_text u). split; [reflexivity|]. split; [apply dr; unfold two64; lia|].
+    exists 109, (sec_text u). repeat split; try reflexivity; lia.
+Qed.
+
+Lemma segs_le_length u : 0 < u < two63 -> (segs u <= length (dur_format_u u))%nat.
+Proof.
+  intros Hu. unfold two63 in Hu. unfold segs.
+  destruct (Z.ltb_spec u 60000000000) as [H1|H1].
+  { destruct (format_shape u) as (x & t & E & _ & _); [unfold two63; lia|].
+    rewrite E, app_length. pose proof (len_dec_pos x). lia. }
+  rewrite fmt_sec by lia. cbv zeta.
+  set (u1 := u / 1000000000). set (u2 := u1 / 60). set (u3 := u2 / 60).
+  assert (H60 : 60 <= u1) by (apply Z.div_le_lower_bound; lia).
+  assert (H1' : 1 <= u2) by (apply Z.div_le_lower_bound; lia).
+  replace (u2 >? 0) with true by lia.
+  destruct (Z.ltb_spec u 3600000000000) as [H2|H2].
+  - destruct (u3 >? 0); rewrite !app_length; pose proof (len_dec_pos (u2 mod 60));
+      unfold sec_text; rewrite !app_length; pose proof (len_dec_pos (u / 1000000000 mod 60)); simpl; lia.
+  - assert (H3600 : 3600 <= u1) by (apply Z.div_le_lower_bound; lia).
+    assert (H60' : 60 <= u2) by (apply Z.div_le_lower_bound; lia).
+    assert (H1'' : 1 <= u3) by (apply Z.div_le_lower_bound; lia).
+    replace (u3 >? 0) with true by lia.
+    rewrite !app_length. pose proof (len_dec_pos u3). pose proof (len_dec_pos (u2 mod 60)).
+    unfold sec_text; rewrite !app_length; pose proof (len_dec_pos (u / 1000000000 mod 60)); simpl; lia.
+Qed.
+
+(* ------------------------------------------------------------------ ParseDuration on the whole text *)
+
+Lemma strip_digit_head k x t : dec_range x -> k < 48 -> strip_char k (dec x ++ t) = None.
+Proof.
+  intros Hr Hk. destruct (dec_head x Hr) as (c & r & E & Hc & _). rewrite E. cbn [app].
+  apply strip_char_miss. lia.
+Qed.
+
+Lemma strip_digit_head0 k x : dec_range x -> k < 48 -> strip_char k (dec x) = None.
+Proof. intros Hr Hk. rewrite <- (app_nil_r (dec x)). apply strip_digit_head; assumption. Qed.
+
+Lemma not_zero_text x t : tail_ok t -> str_eqb (dec x ++ t) [48] = false.
+Proof.
+  intros (c & r & -> & _). destruct (str_eqb (dec x ++ c :: r) [48]) eqn:E; [|reflexivity].
+  apply list_eqb_eq in E. apply (f_equal (@length Z)) in E. rewrite app_length in E.
+  pose proof (len_dec_pos x). simpl in E. lia.
+Qed.
+
+Lemma parse_duration_pos s :
+  strip_char 45 s = None -> strip_char 43 s = None -> str_eqb s [48] = false -> s <> [] ->
+  parse_duration s =
+  match pd_loop (length s) 0 s with None => None | Some d => if d >? two63 - 1 then None else Some d end.
+Proof.
+  intros H1 H2 H3 H4. unfold parse_duration. rewrite H1, H2, H3. destruct s; [congruence|reflexivity].
+Qed.
+
+Lemma parse_duration_neg s :
+  str_eqb s [48] = false -> s <> [] ->
+  parse_duration (45 :: s) = match pd_loop (length s) 0 s with None => None | Some d => Some (- d) end.
+Proof.
+  intros H3 H4. unfold parse_duration. rewrite strip_char_hit, H3. destruct s; [congruence|reflexivity].
+Qed.
+
+Lemma parse_duration_format u : 0 < u < two63 ->
+  parse_duration (dur_format_u u) = Some u /\ parse_duration (45 :: dur_format_u u) = Some (- u).
+Proof.
+  intros Hu. pose proof (pd_format (length (dur_format_u u)) u Hu (segs_le_length u Hu)) as Hpd.
+  destruct (format_shape u Hu) as (x & t & E & Hr & Ht).
+  assert (Hne : dur_format_u u <> []).
+  { destruct (dec_head x Hr) as (c & r & Ed & _). rewrite E, Ed. discriminate. }
+  assert (H45 : strip_char 45 (dur_format_u u) = None) by (rewrite E; apply strip_digit_head; [assumption|lia]).
+  assert (H43 : strip_char 43 (dur_format_u u) = None) by (rewrite E; apply strip_digit_head; [assumption|lia]).
+  assert (H0 : str_eqb (dur_format_u u) [48] = false) by (rewrite E; apply not_zero_text, Ht).
+  split.
+  - rewrite parse_duration_pos by assumption. rewrite Hpd.
+    unfold two63 in *. replace (u >? 9223372036854775808 - 1) with false by lia. reflexivity.
+  - rewrite parse_duration_neg by assumption. rewrite Hpd. reflexivity.
+Qed.
+
+(* ------------------------------------------------------------------ the days prefix *)
+
+Lemma re_days_none x t : dec_range x -> tail_ok t ->
+  re_days (dec x ++ t) = None /\ re_days (45 :: dec x ++ t) = None.
+Proof.
+  intros Hr (c & r & -> & Hc & Hc100).
+  assert (Hsp : span is_digit (dec x ++ c :: r) = (dec x, c :: r)).
+  { apply span_digits; [apply dec_digits, Hr|exact Hc]. }
+  pose proof (dec_nonempty x) as Hne.
+  split; unfold re_days.
+  - rewrite strip_digit_head by (try assumption; lia). rewrite Hsp.
+    destruct (dec x) as [|? ?]; [congruence|]. rewrite strip_char_miss by exact Hc100. reflexivity.
+  - rewrite strip_char_hit, Hsp.
+    destruct (dec x) as [|? ?]; [congruence|]. rewrite strip_char_miss by exact Hc100. reflexivity.
+Qed.
+
+Lemma re_days_hit (neg : bool) days body : dec_range days ->
+  re_days ((if neg then [45] else []) ++ (dec days ++ [100]) ++ body) =
+  Some ((if neg then [45] else []) ++ dec days, body).
+Proof.
+  intros Hr.
+  assert (Hsp : span is_digit (dec days ++ 100 :: body) = (dec days, 100 :: body)).
+  { apply span_digits; [apply dec_digits, Hr|reflexivity]. }
+  pose proof (dec_nonempty days) as Hne.
+  rewrite <- app_assoc. cbn [app]. unfold re_days. destruct neg; cbn [app].
+  - rewrite strip_char_hit, Hsp. destruct (dec days) as [|? ?]; [congruence|]. rewrite strip_char_hit. reflexivity.
+  - rewrite strip_digit_head by (try assumption; lia). rewrite Hsp.
+    destruct (dec days) as [|? ?]; [congruence|]. rewrite strip_char_hit. reflexivity.
+Qed.
+
+Lemma parse_int_clamp_dec (neg : bool) days : 0 <= days < two63 ->
+  parse_int_clamp ((if neg then [45] else []) ++ dec days) = if neg then - days else days.
+Proof.
+  intros Hd. assert (Hr : dec_range days) by (apply dr; unfold two63, two64 in *; lia).
+  unfold parse_int_clamp. destruct neg; cbn [app].
+  - rewrite strip_char_hit, (dec_val days Hr). replace (days >? two63) with false by lia. reflexivity.
+  - rewrite strip_digit_head0 by (try assumption; lia).
+    rewrite (dec_val days Hr). replace (days >? two63 - 1) with false by lia. reflexivity.
+Qed.
+
+(* ------------------------------------------------------------------ the round trip *)
+
+Definition mag_text (neg : bool) (a : Z) : list Z :=
+  (if neg then [45] else []) ++
+  (if a / t_day >? 0 then dec (a / t_day) ++ [100] else []) ++
+  (if a mod t_day =? 0 then [] else dur_format_u (a mod t_day)).
+
+Lemma unmarshal_mag (neg : bool) a : 0 <= a < two63 -> (neg = true -> 0 < a) ->
+  dur_unmarshal (mag_text neg a) = Some (if neg then - a else a).
+Proof.
+  intros Ha Hneg. unfold mag_text.
+  pose proof (Z.div_mod a t_day ltac:(unfold t_day; lia)) as Hdm.
+  pose proof (Z.mod_pos_bound a t_day ltac:(unfold t_day; lia)) as Hmb.
+  assert (Hdays : 0 <= a / t_day) by (apply Z.div_pos; unfold t_day; lia).
+  remember (a / t_day) as days eqn:Edays. remember (a mod t_day) as nd eqn:End.
+  assert (Hday24 : days * 24 * t_hour = days * t_day) by (unfold t_hour, t_day; lia).
+  assert (Hdr : 0 <= days < two63) by (unfold two63, t_day in *; nia).
+  assert (Hbody : (if nd =? 0 then [] else dur_format_u nd) = [] /\ nd = 0 \/
+                  (if nd =? 0 then [] else dur_format_u nd) = dur_format_u nd /\ 0 < nd).
+  { destruct (nd =? 0) eqn:E; [left; split; [reflexivity|lia]|right; split; [reflexivity|lia]]. }
+  unfold dur_unmarshal.
+  destruct (days >? 0) eqn:Ed.
+  - (* with a days prefix *)
+    rewrite re_days_hit by (apply dr; unfold two63, two64 in *; lia).
+    rewrite parse_int_clamp_dec by exact Hdr.
+    assert (Hfin : forall ndv, ndv = nd ->
+      Some (if neg then wrap64 (- wrap64 (ndv + wrap64 (days * 24 * t_hour))) else wrap64 (ndv + wrap64 (days * 24 * t_hour)))
+      = Some (if neg then - a else a)).
+    { intros ndv ->. rewrite Hday24. unfold two63, t_day in *.
+      rewrite (wrap64_id (days * 86400000000000)) by (unfold in_int64, two63; lia).
+      rewrite (wrap64_id (nd + days * 86400000000000)) by (unfold in_int64, two63; lia).
+      destruct neg; [rewrite wrap64_id by (unfold in_int64, two63; lia)|]; f_equal; lia. }
+    destruct neg.
+    + replace (- days <? 0) with true by lia. replace (wrap64 (- - days)) with days
+        by (rewrite Z.opp_involutive, wrap64_id; [reflexivity|unfold in_int64; unfold two63 in *; lia]).
+      destruct Hbody as [[-> Hz]|[-> Hp]].
+      * apply (Hfin 0). lia.
+      * destruct (parse_duration_format nd) as [Hpd _]; [unfold two63, t_day in *; lia|].
+        destruct (dur_format_u nd) eqn:Ef.
+        { destruct (format_shape nd) as (x & t & E & _ & _); [unfold two63, t_day in *; lia|].
+          rewrite Ef in E. pose proof (dec_nonempty x). destruct (dec x); [congruence|discriminate]. }
+        rewrite Hpd. apply (Hfin nd). reflexivity.
+    + replace (days <? 0) with false by lia.
+      destruct Hbody as [[-> Hz]|[-> Hp]].
+      * apply (Hfin 0). lia.
+      * destruct (parse_duration_format nd) as [Hpd _]; [unfold two63, t_day in *; lia|].
+        destruct (dur_format_u nd) eqn:Ef.
+        { destruct (format_shape nd) as (x & t & E & _ & _); [unfold two63, t_day in *; lia|].
+          rewrite Ef in E. pose proof (dec_nonempty x). destruct (dec x); [congruence|discriminate]. }
+        rewrite Hpd. apply (Hfin nd). reflexivity.
+  - (* less than one day: a = nd *)
+    assert (Hd0 : days = 0) by lia. assert (Hand : a = nd) by lia.
+    cbn [app]. destruct Hbody as [[-> Hz]|[-> Hp]].
+    + (* zero *)
+      assert (Ha0 : a = 0) by lia. destruct neg; [specialize (Hneg eq_refl); lia|].
+      rewrite Ha0. reflexivity.
+    + destruct (format_shape nd) as (x & t & E & Hr & Ht); [unfold two63 in *; lia|].
+      destruct (re_days_none x t Hr Ht) as [Hn1 Hn2].
+      destruct (parse_duration_format nd) as [Hp1 Hp2]; [unfold two63 in *; lia|].
+      assert (Hn1' : re_days (dur_format_u nd) = None) by (rewrite E; exact Hn1).
+      assert (Hn2' : re_days (45 :: dur_format_u nd) = None) by (rewrite E; exact Hn2).
+      assert (Hne : dur_format_u nd <> []).
+      { rewrite E. pose proof (dec_nonempty x). destruct (dec x); [congruence|discriminate]. }
+      destruct neg; cbn [app].
+      * rewrite Hn2'. cbv iota beta zeta. rewrite Hp2. change (wrap64 (0 * 24 * t_hour)) with 0.
+        rewrite Z.add_0_r, wrap64_id by (unfold in_int64; unfold two63 in *; lia). f_equal. lia.
+      * rewrite Hn1'. cbv iota beta zeta.
+        assert (Hm : match dur_format_u nd with [] => Some 0 | _ :: _ => parse_duration (dur_format_u nd) end = Some nd).
+        { destruct (dur_format_u nd) eqn:Ef; [congruence|]. exact Hp1. }
+        rewrite Hm. change (wrap64 (0 * 24 * t_hour)) with 0.
+        rewrite Z.add_0_r, wrap64_id by (unfold in_int64; unfold two63 in *; lia). f_equal. lia.
+Qed.
+
+Lemma dur_marshal_mag d : - two63 < d < two63 ->
+  dur_marshal d = mag_text (d <? 0) (Z.abs d).
+Proof.
+  intros Hd. unfold dur_marshal, mag_text.
+  assert (Hd1 : (if d <? 0 then wrap64 (- d) else d) = Z.abs d).
+  { destruct (Z.ltb_spec d 0); [rewrite wrap64_id by (unfold in_int64; lia)|]; lia. }
+  rewrite Hd1.
+  rewrite Z.quot_div_nonneg, Z.rem_mod_nonneg by (unfold t_day; lia).
+  f_equal. f_equal.
+  destruct (Z.abs d mod t_day =? 0) eqn:E; [reflexivity|].
+  unfold dur_string.
+  pose proof (Z.mod_pos_bound (Z.abs d) t_day ltac:(unfold t_day; lia)).
+  replace (Z.abs d mod t_day <? 0) with false by lia. reflexivity.
+Qed.
+
+Theorem dur_roundtrip d : - two63 < d < two63 -> dur_unmarshal (dur_marshal d) = Some d.
+Proof.
+  intros Hd. rewrite dur_marshal_mag by exact Hd.
+  rewrite unmarshal_mag by (try lia; intros H; apply Z.ltb_lt in H; lia).
+  f_equal. destruct (Z.ltb_spec d 0); lia.
+Qed.
+
+(* the single int64 that is not covered: the faithful model shows the failure *)
+Lemma dur_min_int64_refuted :
+  dur_marshal (- two63) = [45;45;50;51;104;52;55;109;49;54;46;56;53;52;55;55;53;56;48;56;115] /\
+  dur_unmarshal (dur_marshal (- two63)) = None.
+Proof. vm_compute. split; reflexivity. Qed.
+
+Example dur_examples :
+  dur_marshal 0 = [] /\ dur_marshal 1500000 = [49;46;53;109;115] /\
+  dur_marshal (- (3 * t_day + t_hour + 1)) = [45;51;100;49;104;48;109;48;46;48;48;48;48;48;48;48;48;49;115] /\
+  dur_unmarshal [45;51;100;49;104;48;109;48;46;48;48;48;48;48;48;48;48;49;115] = Some (- (3 * t_day + t_hour + 1)) /\
+  dur_unmarshal [49;46;53;104] = Some 5400000000000 /\ dur_unmarshal [53] = None.
+Proof. vm_compute. repeat split. Qed.
